@@ -108,6 +108,12 @@ fn observe(case: &Value) -> Vec<(String, Value)> {
                     if ia.partial_cmp(&ib) != Some(ia.cmp(&ib)) { o["partial_cmp_disagrees"] = json!(true); }
                     if *ia.genome() != 7 || *ib.genome() != 9 { o["genome_changed"] = json!(true); }
                     out.push((format!("EcIndividual<TestResults<{}>>", $name), o));
+                    // ... and with EQUAL genomes: the genome must play no part in the comparison
+                    let ic = EcIndividual::new(7u8, ts.clone());
+                    let mut o = json!({"cmp": ord(ia.cmp(&ic)), "total_r": ia.test_results().total_result.0,
+                                       "total_s": ic.test_results().total_result.0});
+                    if ia.partial_cmp(&ic) != Some(ia.cmp(&ic)) { o["partial_cmp_disagrees"] = json!(true); }
+                    out.push((format!("EcIndividual<TestResults<{}>> (same genome)", $name), o));
                 }};
             }
             if case["kind"] == "score" {
